@@ -7,6 +7,9 @@ CONSTANTS
   MaxStreamss = {1}
   NDg = 0
   DgCap = 1
+  DgReaders = 1
+  DgWakeAll = TRUE
+  FinishWakes = TRUE
   AllowReset = FALSE
   AllowStop = FALSE
   AllowLoss = FALSE
